@@ -71,10 +71,14 @@ def pairing(chk, F):
                "the decomposition loop enumerates the resolved units from the first", "the decomposition loop does not enumerate the resolved units themselves")
 
 
+TO_LIST_KEEP = ("conformance_err", "Option::<T>", "Result::<T, E>", "Iterator", "bool>::then")
+
+
 def positive_units(chk, F):
     """All parts share the value's sign only if every list unit is positive: the decomposition runs behind the refusing edge
     of `unit.value < 0` (zero is refused by the divisor gate)."""
-    fn = F.find(CORE, "runtime::eval::to_list")
+    # (normalised: the tests may have been taken out into a private `check(unit)?` helper)
+    fn = F.find(CORE, "runtime::eval::to_list", inline=True, keep=TO_LIST_KEEP)
     fk = "rink_core::runtime::eval::to_list"
     drs = [bb for bb, t in fn.calls() if "callee" in t and t["callee"]["path"].endswith("types::numeric::Numeric::div_rem")]
     if len(drs) != 1:
@@ -98,7 +102,7 @@ def positive_units(chk, F):
 
 
 def threading(chk, F):
-    fn = F.find(CORE, "runtime::eval::to_list")
+    fn = F.find(CORE, "runtime::eval::to_list", inline=True, keep=TO_LIST_KEEP)
     fk = "rink_core::runtime::eval::to_list"
     drs = [(bb, t) for bb, t in fn.calls() if "callee" in t and t["callee"]["path"].endswith("types::numeric::Numeric::div_rem")]
     divs = [(bb, t) for bb, t in fn.calls() if "callee" in t and t["callee"]["path"].endswith("core::ops::arith::Div<&'b types::numeric::Numeric>>::div")]
